@@ -26,3 +26,56 @@ Definition check (ops : list op) (ds : list nat) (xs : list obs) : bool :=
   complete dl xs && walk5 [] dl xs.
 
 Definition model_line := Oracle.C03.model_line.
+
+(** * Concurrent cases (overlapping ingest calls, Model/IngestConc.v)
+
+    The harness first runs the deliveries [ds] one after the other, then the calls [batch]
+    concurrently on the same store, then the log-prune steps of the successful prune-flagged
+    calls.  Observation: the per-delivery observations [xs], the results [cres] of the calls, the
+    rows [ins] the batch inserted in commit (rowid) order, all rows before / after the prune steps. *)
+From PV Require Import Model.IngestConc.
+Local Open Scope string_scope.
+
+Definition show_outcome (na nl : N) (o : outcome) : string :=
+  "B=" ++ show_list show_res "," (out_res o) ++ "/ins=" ++ show_list (fun r => show_N (r_id r)) "," (out_ins o)
+  ++ "/" ++ show_store na nl (out_before o) ++ "/" ++ show_store na nl (out_after o).
+
+(** Model line: the sequential part, then the outcome of every sequential order of the batch
+    (theorem [C05_concurrent_ingest_serialisable]: the implementation must show one of them). *)
+Definition model_line_conc (na nl : N) (ops : list op) (ds batch : list nat) : string :=
+  let dl := pick ops ds in
+  show_trace na nl ops (trace [] dl) ++ " ;; "
+  ++ join " || " (map (show_outcome na nl) (outcomes (run dl) (pick ops batch))).
+
+Fixpoint marks_of (marks : list (N * N * N)) (ds : list op) (xs : list obs) : list (N * N * N) :=
+  match ds, xs with
+  | o :: dt, x :: xt =>
+      marks_of (if o_prune o && res_ok (ob_res x) then (o_author o, o_log o, o_seq o) :: marks else marks) dt xt
+  | _, _ => marks
+  end.
+
+(** No row of the same log below a prune-flagged row committed before it. *)
+Fixpoint ins_ok (ins : list row) : bool :=
+  match ins with
+  | [] => true
+  | p :: t =>
+      (if r_prune p then forallb (fun r => negb (in_log (r_author p) (r_log p) r) || (r_seq p <=? r_seq r)%N) t else true)
+      && ins_ok t
+  end.
+
+Definition batch_marks (batch : list op) (cres : list res) : list (N * N * N) :=
+  flat_map (fun x => if o_prune (fst x) && res_ok (snd x) then [(o_author (fst x), o_log (fst x), o_seq (fst x))] else [])
+           (combine batch cres).
+
+Definition check_conc (ops : list op) (ds : list nat) (xs : list obs) (batch : list nat)
+           (cres : list res) (ins before after : store) : bool :=
+  let dl := pick ops ds in
+  let bl := pick ops batch in
+  let pre_marks := marks_of [] dl xs in
+  check ops ds xs
+  && Nat.eqb (List.length cres) (List.length bl)
+  && negb (existsb is_panic cres)
+  && forallb (above_mark before) pre_marks
+  && forallb (above_mark after) (pre_marks ++ batch_marks bl cres)
+  && ins_ok ins
+  && subset_rows ins before.
